@@ -145,21 +145,24 @@ static inline struct hh_state hh_md4(struct hh_state s, const hh_u32 in[8])
  *   hash0 = 0x12a3fe2d, hash1 = 0x37abe8f9;  per byte: hash = hash1 + (hash0 ^ (c * 7152373));
  *   if (hash & 0x80000000) hash -= 0x7fffffff;  hash1 = hash0; hash0 = hash;     result hash0 << 1
  * (the multiplication is an `int` product in the kernel, built with -fwrapv/-fno-strict-overflow; |c| <= 255 so it
- * never overflows anyway).  HH_LEGACY_ROUND is the new hash0 after one byte c (the new hash1 is the old hash0).
+ * never overflows anyway).
  */
 #define HH_LEGACY_H0 0x12a3fe2du
 #define HH_LEGACY_H1 0x37abe8f9u
 #define HH_LEGACY_MIX(h0, h1, c) ((hh_u32)(h1) + ((hh_u32)(h0) ^ (hh_u32)((c) * 7152373)))
-#define HH_LEGACY_ROUND(h0, h1, c) \
-	((HH_LEGACY_MIX(h0, h1, c) & 0x80000000u) ? HH_LEGACY_MIX(h0, h1, c) - 0x7fffffffu : HH_LEGACY_MIX(h0, h1, c))
+/* one byte c: (h0, h1) := (fold(mix), h0) — a statement, h0 and h1 are lvalues */
+#define HH_LEGACY_STEP(h0, h1, c) do { \
+		hh_u32 h_ = HH_LEGACY_MIX(h0, h1, c); \
+		if (h_ & 0x80000000u) \
+			h_ -= 0x7fffffffu; \
+		(h1) = (h0); \
+		(h0) = h_; \
+	} while (0)
 static inline hh_u32 hh_legacy(const unsigned char *name, int len, int unsigned_variant)
 {
-	hh_u32 h0 = HH_LEGACY_H0, h1 = HH_LEGACY_H1, h;
-	for (int i = 0; i < len; i++) {
-		h = HH_LEGACY_ROUND(h0, h1, HH_CHAR(name, i, unsigned_variant));
-		h1 = h0;
-		h0 = h;
-	}
+	hh_u32 h0 = HH_LEGACY_H0, h1 = HH_LEGACY_H1;
+	for (int i = 0; i < len; i++)
+		HH_LEGACY_STEP(h0, h1, HH_CHAR(name, i, unsigned_variant));
 	return h0 << 1;
 }
 
